@@ -69,6 +69,10 @@ IF_Zero(o) == o.iter = 0 /\ o.beta = 0 /\ o.calls = 0
 \* documented behaviour beyond the listed properties: a fresh run() starts from an empty history.  It does NOT hold for a
 \* second run() on a sampler that has already run (action RunAgain below): the pinned code resets the counters only.
 IF_EmptyHistory(o) == o.histLen = 0
+\* documented behaviour beyond the listed properties (pinned code, action RunAgain): a run() started on a state container that already
+\* holds committed batches (prevHistLen of them when its last commit was observed) does not start with fewer.  C17's append-only clause is
+\* about iterations; a fresh run() that re-initialised the container would be a legitimate design too - a deviation, not a violation
+IF_HistoryKept(o) == o.histLen >= o.prevHistLen
 
 \* ---- Reweight.  o = [first, beta, ess, logz, wts,              (recorded)
 \*                      essAt, logzAt, wtsAt, refAgrees,           (recomputed at the recorded beta from the pre-step pool)
